@@ -409,7 +409,7 @@ pub fn run(tier: Tier, totals: &mut Totals) {
         let opts = BfsOpts {
             max_depth: 64,
             max_states: tier.pick(2_000_000, 20_000_000),
-            wall: Duration::from_secs(tier.pick(45, 700)),
+            wall: Duration::from_secs(tier.pick(55, 3000)),
             threads: 16,
         };
         let r = bfs(&sys, &opts);
